@@ -491,6 +491,13 @@ func withBindMap(b map[*ssa.Parameter]ssa.Value, f func()) {
 	f()
 }
 
+func keyOfFn(f *ssa.Function) string {
+	if lastCtx == nil {
+		return ""
+	}
+	return lastCtx.Key(f)
+}
+
 // valKey is a canonical textual identity for "the same value": parameters and
 // field paths are named, loads are looked through (a cell that is stored once
 // is replaced by the stored value), calls are identified by their instruction.
@@ -510,6 +517,12 @@ func valKeyD(v ssa.Value, d int) string {
 	case *ssa.Parameter:
 		if b, ok := curBind[x]; ok {
 			return valKeyD(b, d+1)
+		}
+		// the parameter of an unexported helper with a single call site IS that site's argument
+		if a := uniqueCallerArg(x); a != nil && x.Parent().Signature.Recv() == nil || a != nil && x != x.Parent().Params[0] {
+			if !namedAnchors[keyOfFn(x.Parent())] {
+				return valKeyD(a, d+1)
+			}
 		}
 		return "param:" + x.Parent().Name() + "." + x.Name()
 	case *ssa.Const:
